@@ -29,6 +29,8 @@ func c06cfg6(c *sym.Config) {
 	c.MaxConcretize = 6
 }
 
+var mustC16 = []string{"rows==model", "history-encode-ok", "readback-ok", "encoded==model", "reuse-decode-ok", "reuse-decode==fresh-values", "truncated-rejected"}
+
 var props = map[string]*propDef{
 	"C14": {
 		ID: "C14", Level: "model_checking", Rule: ruleDefault,
@@ -115,6 +117,19 @@ var props = map[string]*propDef{
 			{Name: "proto.VerifC06LowCardinalityRaw", Cfg: c06cfg6, Quick: map[string]int{"maxrows": 2, "inlen": 36}, Thorough: map[string]int{"maxrows": 2, "inlen": 38}},
 			{Name: "proto.VerifC06Messages", Cfg: c06cfg, Quick: map[string]int{"inlen": 6}, Thorough: map[string]int{"inlen": 9}},
 			{Name: "proto.VerifC06RawBlock", Cfg: c06cfg, Quick: map[string]int{"inlen": 7}, Thorough: map[string]int{"inlen": 9}},
+		},
+	},
+	"C16": {
+		ID: "C16", Level: "model_checking", Rule: ruleDefault,
+		Assumptions: append([]string{
+			"oracle: the harness' plain list of model values; the bytes a used column produces are read back by decoding them into a fresh column (the decoder's fidelity for fresh targets is C01's subject)",
+			"protocol revision fixed at 54460 for the history harness",
+		}, baseAssumptions...),
+		Harnesses: []harnessDef{
+			{Name: "proto.VerifC16Composites", Must: mustC16, Quick: map[string]int{"maxsteps": 3, "minstr": 1, "maxstr": 1, "mininner": 1, "maxinner": 1}, Thorough: map[string]int{"maxsteps": 4, "minstr": 1, "maxstr": 1, "mininner": 1, "maxinner": 1}},
+			{Name: "proto.VerifC16Composites", Must: mustC16, OnlyTier: "thorough", Thorough: map[string]int{"maxsteps": 3, "minstr": 0, "maxstr": 1, "mininner": 0, "maxinner": 1}},
+			{Name: "proto.VerifC16PlainLeaves", Must: mustC16, Quick: map[string]int{"maxsteps": 3, "minstr": 1, "maxstr": 1, "minprec": 3, "maxprec": 3, "minscale": 3, "maxscale": 3}, Thorough: map[string]int{"maxsteps": 4, "minstr": 0, "maxstr": 1}},
+			{Name: "proto.VerifC16GenLeaves", Must: mustC16, Quick: map[string]int{"maxsteps": 2}, Thorough: map[string]int{"maxsteps": 3}},
 		},
 	},
 }
